@@ -737,5 +737,116 @@ def colliderSDF (two : α) (coll : α → Bool) (contains : Bool) (iters : Nat) 
   let res := (r.1 + r.2) / two
   if contains then res else res * (-1)
 
+/-! ## Transforms (`templates/transform.template`) and the fields derived through them
+
+`Translate`, `Scale`, `orthoMatrix{3,2}Transform` (a `Rotation`; the matrix is data) and
+`JoinedTransform` (a list, applied left to right), their `Inverse()` and `ApplyDistance`;
+`TransformSDF` and `transformedCollider.SphereCollision/CircleCollision` followed by `ColliderToSDF`. -/
+
+namespace M2
+/-- `Matrix2.Inverse` = `InvertInPlaceDet(m.Det())`: adjugate, then `Scale(1 / det)` -/
+def inverse (m : M2 α) : M2 α :=
+  let s := 1 / (m.m0 * m.m3 - m.m1 * m.m2)
+  ⟨m.m3 * s, (-m.m1) * s, (-m.m2) * s, m.m0 * s⟩
+def mulColumn (m : M2 α) (c : V2 α) : V2 α := ⟨m.m0 * c.x + m.m1 * c.y, m.m2 * c.x + m.m3 * c.y⟩
+end M2
+
+/-- a member of a 3-D `JoinedTransform` that implements `DistTransform` -/
+inductive Xf3 (α : Type) where
+  | translate (o : V3 α)
+  | scale (k : α)
+  | rot (m : M3 α)
+
+/-- the same for `model2d` -/
+inductive Xf2 (α : Type) where
+  | translate (o : V2 α)
+  | scale (k : α)
+  | rot (m : M2 α)
+
+namespace Xf3
+/-- `Apply` -/
+def apply : Xf3 α → V3 α → V3 α
+  | translate o, c => c.add o
+  | scale k, c => c.scale k
+  | rot m, c => m.mulColumn c
+/-- `ApplyDistance` (`Scale`: `d * math.Abs(s.Scale)`) -/
+def applyDistance : Xf3 α → α → α
+  | translate _, d => d
+  | scale k, d => d * absS k
+  | rot _, d => d
+/-- `Inverse()` -/
+def inverse : Xf3 α → Xf3 α
+  | translate o => translate (o.scale (-1))
+  | scale k => scale (1 / k)
+  | rot m => rot m.inverse
+end Xf3
+
+namespace Xf2
+def apply : Xf2 α → V2 α → V2 α
+  | translate o, c => c.add o
+  | scale k, c => c.scale k
+  | rot m, c => m.mulColumn c
+def applyDistance : Xf2 α → α → α
+  | translate _, d => d
+  | scale k, d => d * absS k
+  | rot _, d => d
+def inverse : Xf2 α → Xf2 α
+  | translate o => translate (o.scale (-1))
+  | scale k => scale (1 / k)
+  | rot m => rot m.inverse
+end Xf2
+
+/-- `JoinedTransform.Apply` (a bare transform is the one-element list) -/
+def xfApply3 (ts : List (Xf3 α)) (c : V3 α) : V3 α := ts.foldl (fun c t => t.apply c) c
+/-- `JoinedTransform.ApplyDistance` -/
+def xfDist3 (ts : List (Xf3 α)) (d : α) : α := ts.foldl (fun d t => t.applyDistance d) d
+/-- `JoinedTransform.Inverse`: the inverses in reverse order -/
+def xfInverse3 (ts : List (Xf3 α)) : List (Xf3 α) := ts.reverse.map Xf3.inverse
+
+def xfApply2 (ts : List (Xf2 α)) (c : V2 α) : V2 α := ts.foldl (fun c t => t.apply c) c
+def xfDist2 (ts : List (Xf2 α)) (d : α) : α := ts.foldl (fun d t => t.applyDistance d) d
+def xfInverse2 (ts : List (Xf2 α)) : List (Xf2 α) := ts.reverse.map Xf2.inverse
+
+/-- `TransformSDF(t, s).SDF(c)` = `t.ApplyDistance(s.SDF(inv.Apply(c)))`, `inv := t.Inverse()` -/
+def transformSDF3 (ts : List (Xf3 α)) (sdf : V3 α → α) (c : V3 α) : α :=
+  xfDist3 ts (sdf (xfApply3 (xfInverse3 ts) c))
+def transformSDF2 (ts : List (Xf2 α)) (sdf : V2 α → α) (c : V2 α) : α :=
+  xfDist2 ts (sdf (xfApply2 (xfInverse2 ts) c))
+
+/-- `transformedCollider.SphereCollision(c, r)` = `t.c.SphereCollision(t.inv.Apply(c), t.inv.ApplyDistance(r))`
+over a wrapped collider whose `SphereCollision(c, r)` is `math.Abs(SDF(c)) <= r` (`Sphere`, `Rect`, `Capsule`,
+…): `s` is the wrapped SDF at the inverse-mapped centre, `invDist` is `t.inv.ApplyDistance`. -/
+def xfBallQuery (invDist : α → α) (s : α) (r : α) : Bool := decide (absS s ≤ invDist r)
+
+/-- `ColliderToSDF(TransformCollider(t, shape), iters).SDF(c)`; `contains` is `ColliderSolid.Contains(c)` -/
+def transformedColliderSDF3 (two : α) (ts : List (Xf3 α)) (sdf : V3 α → α) (contains : Bool) (iters : Nat)
+    (c : V3 α) : α :=
+  let inv := xfInverse3 ts
+  colliderSDF two (xfBallQuery (xfDist3 inv) (sdf (xfApply3 inv c))) contains iters
+def transformedColliderSDF2 (two : α) (ts : List (Xf2 α)) (sdf : V2 α → α) (contains : Bool) (iters : Nat)
+    (c : V2 α) : α :=
+  let inv := xfInverse2 ts
+  colliderSDF two (xfBallQuery (xfDist2 inv) (sdf (xfApply2 inv c))) contains iters
+
+/-- the shapes with an exactly known distance that the transformed kinds wrap -/
+inductive Shape3 (α : Type) where
+  | sphere (center : V3 α) (r : α)
+  | rect (lo hi : V3 α)
+  | capsule (p1 p2 : V3 α) (r : α)
+inductive Shape2 (α : Type) where
+  | circle (center : V2 α) (r : α)
+  | rect (lo hi : V2 α)
+  | capsule (p1 p2 : V2 α) (r : α)
+
+/-- the shape's `SDF` -/
+def Shape3.sdf (E : Env α) : Shape3 α → V3 α → α
+  | .sphere ce r, c => sphereSDF E ce r c
+  | .rect lo hi, c => (rectOut3 E lo hi c).val
+  | .capsule p1 p2 r, c => (capsuleOut3 E p1 p2 r c).val
+def Shape2.sdf (E : Env α) : Shape2 α → V2 α → α
+  | .circle ce r, c => circleSDF E ce r c
+  | .rect lo hi, c => (rectOut2 E lo hi c).val
+  | .capsule p1 p2 r, c => (capsuleOut2 E p1 p2 r c).val
+
 end
 end M3d.Sdf
